@@ -4,6 +4,7 @@ package main
 // (through a symlink) it is the command-call probe used by C18.
 
 import (
+	"strings"
 	"fmt"
 	"os"
 	"path/filepath"
@@ -19,6 +20,10 @@ var commands = map[string]func([]string){}
 func main() {
 	base := filepath.Base(os.Args[0])
 	if base != "vh" {
+		// a program called by a path (the string-literal form @"dir/prog"(...)) reports the path it was called by
+		if strings.ContainsAny(os.Args[0], "/") && !filepath.IsAbs(os.Args[0]) {
+			base = os.Args[0]
+		}
 		probeMain(base)
 		return
 	}
